@@ -16,6 +16,9 @@ import (
 
 // SendBundle transmits an outbounding bundle.
 func (c *Core) SendBundle(bndl *bpv7.Bundle) {
+	// The sequence number must be final before the bundle is signed and filed in the store under its ID.
+	c.idKeeper.update(bndl)
+
 	if c.signPriv != nil && bndl.IsAdministrativeRecord() {
 		c.sendBundleAttachSignature(bndl)
 	}
@@ -51,8 +54,6 @@ func (c *Core) transmit(bp BundleDescriptor) {
 	log.WithFields(log.Fields{
 		"bundle": bp.ID(),
 	}).Info("Transmission of bundle requested")
-
-	c.idKeeper.update(bp.MustBundle())
 
 	bp.AddConstraint(DispatchPending)
 	_ = bp.Sync()
